@@ -31,6 +31,7 @@ type Profile struct {
 	Steps       int // actions per history
 	Stale       bool // allow scans without cache sync
 	NoNegRates  bool
+	OwnNodesOnly bool  // pods are bound only to nodes of the group they select (twin runs: keeps groups independent in the environment too)
 	FaultFocus  string // "" = any call; "node-writes" = get/update failures aimed at early calls or single nodes
 }
 
@@ -380,8 +381,12 @@ func (w *World) DrawAction(rt *rapid.T, p *Profile) (Action, string) {
 				ps.Cross = fmt.Sprintf("%s:%d", rapid.SampledFrom([]string{"notin", "otherkey", "exists"}).Draw(rt, "crossKind"), og)
 				ps.CPU += w.Cfg.Groups[og].NodeCPU * int64(rapid.IntRange(0, 3).Draw(rt, "crossCPU"))
 			}
-			if len(nodes) > 0 && rapid.Bool().Draw(rt, "bound") {
-				ps.Node = rapid.SampledFrom(nodes).Draw(rt, "podNode")
+			cands := nodes
+			if p.OwnNodesOnly {
+				cands = w.GroupNodeNames(g)
+			}
+			if len(cands) > 0 && rapid.Bool().Draw(rt, "bound") {
+				ps.Node = rapid.SampledFrom(cands).Draw(rt, "podNode")
 				ps.BoundPending = rapid.IntRange(0, 3).Draw(rt, "boundPending") == 0
 			}
 			pods = append(pods, ps)
